@@ -8,11 +8,13 @@ package main
 
 import (
 	"bytes"
+	"errors"
 	"fmt"
 	"math"
 	"math/rand"
 	"reflect"
 	"strings"
+	"time"
 
 	"github.com/reusee/sb"
 )
@@ -601,6 +603,14 @@ func typedAPI(repM, repU *Report, wM, wU *CaseWriter, r *rand.Rand, thorough boo
 	}
 	apiTuples(repM, repU, r, n)
 	apiFuncTargets(repM, repU, r)
+	apiFanOut(repU, r)
+	streamsSharedToken(repU, "C05", "C01")
+	apiDeepShared(repM, repU)
+	m := 120
+	if thorough {
+		m = 3000
+	}
+	apiRecycledTargets(repU, wU, r, m)
 }
 
 // ---- a func WITH parameters as an unmarshal target is called with the tuple's items ----
@@ -708,6 +718,346 @@ func apiCompareFaults(rep *Report, r *rand.Rand, n int) {
 			// the common prefix a[:at] is equal on both sides, so the fault is reached before any difference
 			if e != nil || classOf(err) != "EFault" {
 				rep.violate("C15", "stream-fault-lost", fmt.Sprintf("Compare returned %d, %v (%v): the fault of the %s stream is not reported", res, err, e, []string{"first", "second"}[side]), desc)
+			}
+		}
+	}
+}
+
+// ---------------------------------------------------------------------------
+// C17: the unmarshal path model (Model/UnmarshalPaths.v): result, error path and tap log of one
+// TapUnmarshal run, handed to the model as a UtapsCase
+// ---------------------------------------------------------------------------
+
+var utapsW *CaseWriter // set by famTyped; nil elsewhere
+
+var utapLeaked int
+
+func utapsCase(rep *Report, t reflect.Type, ts []sb.Token, strict bool, desc string) {
+	if utapsW == nil || len(ts) == 0 || len(ts) > 300 || usesEmbeddedOrRecursive(t) || utapLeaked >= 2 {
+		return // (an empty stream leaves a tapped target untouched: pinned by the repository's own test)
+	}
+	tyS := coqTy(t)
+	if len(tyS) > 6000 {
+		return
+	}
+	type rec struct {
+		path sb.Path
+		kind sb.Kind
+		tk   reflect.Kind
+	}
+	var log []rec
+	target := reflect.New(t)
+	err := withWatchdog(5*time.Second, &utapLeaked, func() error {
+		return guard(func() error {
+			ctx := sb.Ctx{DisallowUnknownStructFields: strict}
+			return copyBudget(tokensFrom(ts), sb.TapUnmarshal(ctx, target.Interface(), func(c sb.Ctx, tok sb.Token, tg reflect.Value) {
+				k := reflect.Invalid
+				if tg.IsValid() && tg.Kind() == reflect.Ptr {
+					k = tg.Type().Elem().Kind()
+				}
+				log = append(log, rec{append(sb.Path{}, c.Path...), tok.Kind, k})
+			}))
+		})
+	})
+	rep.Evaluations++
+	rep.count("c17:utaps-class:" + classOf(err))
+	if classOf(err) == "EDiverge" || classOf(err) == "EPanic" {
+		return // reported by the C05 oracles
+	}
+	var obs string
+	if err != nil {
+		var ep sb.Path
+		if errors.As(err, &ep) {
+			obs = "(UPErr " + classOf(err) + " (Some " + coqPath(ep) + "))"
+		} else {
+			obs = "(UPErr " + classOf(err) + " None)"
+			rep.violate("C17", "error-without-path", fmt.Sprintf("an unmarshal error carries no path: %v", err), desc)
+		}
+	} else {
+		obs = "(UPOk " + coqGval(target.Elem()) + ")"
+	}
+	var xs []string
+	for _, l := range log {
+		xs = append(xs, fmt.Sprintf("(%s, %d, %d)", coqPath(l.path), int(l.kind), int(l.tk)))
+	}
+	term := fmt.Sprintf("UtapsCase %s %s %s %s %s %s %s [%s]", coqOpts(false, strict, false), coqRegistry(), tyS, "(zero "+tyS+")", coqTokens(ts), floatTable(ts), obs, strings.Join(xs, "; "))
+	if len(term) > 40000 {
+		return
+	}
+	utapsW.add(term, "utaps: "+desc, len(log) >= 2)
+}
+
+// ---- one Copy, several unmarshalling sinks: each reads the stream as it would alone ----
+// (the token handed to the sinks of a step is shared; a sink must not rewrite it for the others)
+func apiFanOut(rep *Report, r *rand.Rand) {
+	lit := func(s string) sb.Token { return sb.Token{Kind: sb.KindLiteral, Value: s} }
+	streams := [][]sb.Token{
+		{lit("7")}, {lit("-128")}, {lit("1.5")}, {lit("300")},
+		{tokK(sb.KindArray), lit("1"), lit("2"), lit("200"), tokK(sb.KindArrayEnd)},
+		{tokK(sb.KindObject), tokS("A"), lit("2"), tokS("B"), tokK(sb.KindArray), lit("3"), tokK(sb.KindArrayEnd), tokK(sb.KindObjectEnd)},
+		{tokI(5)}, {tokS("x")}, {tokK(sb.KindNil)},
+	}
+	mks := []func() any{
+		func() any { return new(int8) }, func() any { return new(float64) }, func() any { return new(uint16) }, func() any { return new(string) },
+		func() any { return new([]int64) }, func() any { return new([]float32) }, func() any { return new([]string) },
+		func() any {
+			return new(struct {
+				A float32
+				B []int16
+			})
+		},
+		func() any {
+			return new(struct {
+				A string
+				B []uint8
+			})
+		},
+		func() any { return new(*int) },
+	}
+	for _, ts := range streams {
+		// the targets that accept this stream alone
+		var acc []int
+		for k := range mks {
+			tgt := mks[k]()
+			if guard(func() error { return copyBudget(tokensFrom(ts), sb.Unmarshal(tgt)) }) == nil {
+				acc = append(acc, k)
+			}
+		}
+		if len(acc) == 0 {
+			continue
+		}
+		for trial := 0; trial < 8; trial++ {
+			n := 2 + r.Intn(3)
+			idx := make([]int, n)
+			for i := range idx {
+				idx[i] = acc[r.Intn(len(acc))]
+			}
+			// alone
+			alone := make([]any, n)
+			aloneErr := make([]error, n)
+			for i, k := range idx {
+				alone[i] = mks[k]()
+				tgt := alone[i]
+				aloneErr[i] = guard(func() error { return copyBudget(tokensFrom(ts), sb.Unmarshal(tgt)) })
+			}
+			// together, in one Copy (a failing sink ends the run for all: only runs in which every sink accepts alone are compared)
+			allOK := true
+			for _, e := range aloneErr {
+				if e != nil {
+					allOK = false
+				}
+			}
+			if !allOK {
+				continue
+			}
+			tog := make([]any, n)
+			sinks := make([]sb.Sink, n)
+			for i, k := range idx {
+				tog[i] = mks[k]()
+				sinks[i] = sb.Unmarshal(tog[i])
+			}
+			e := guard(func() error { return sb.Copy(tokensFrom(ts), sinks...) })
+			rep.Evaluations += n + 1
+			rep.count("api:fan-out")
+			desc := fmt.Sprintf("one Copy of [%s] into %d Unmarshal sinks", descTokens(ts), n)
+			for i := range idx {
+				desc += fmt.Sprintf(" %T", tog[i])
+			}
+			bad := e != nil
+			for i := range idx {
+				if !bad && !reflect.DeepEqual(alone[i], tog[i]) {
+					bad = true
+				}
+			}
+			if bad {
+				what := fmt.Sprintf("every sink accepts the stream alone, together the run gives %v and the values differ from the ones decoded alone", e)
+				for _, p := range []string{"C05", "C01", "C14"} {
+					rep.violate(p, "fan-out-differs", what, desc)
+				}
+			}
+		}
+	}
+}
+
+// ---- deep values with SHARED (not cyclic) references beyond the depth at which cycle detection starts ----
+type deepNode struct {
+	Next  *deepNode
+	L, R  *int
+	Items []*int
+	M     map[string]*int
+}
+
+func apiDeepShared(repM, repU *Report) {
+	for _, depth := range []int{3, 999, 1000, 1001, 1200} {
+		for variant := 0; variant < 4; variant++ {
+			leaf := new(int)
+			*leaf = 42
+			tail := &deepNode{}
+			switch variant {
+			case 0:
+				tail.L, tail.R = leaf, leaf
+			case 1:
+				tail.Items = []*int{leaf, leaf, leaf}
+			case 2:
+				tail.M = map[string]*int{"a": leaf, "b": leaf}
+			case 3:
+				tail.L = leaf
+				tail.Items = []*int{leaf}
+				tail.M = map[string]*int{"a": leaf}
+			}
+			head := tail
+			for i := 0; i < depth; i++ {
+				head = &deepNode{Next: head}
+			}
+			desc := fmt.Sprintf("a list of %d nodes whose last node holds the same pointer in several positions (variant %d): acyclic", depth, variant)
+			var ts []sb.Token
+			var err error
+			var leaked int
+			e := withWatchdog(20*time.Second, &leaked, func() error { ts, err = marshalTokens(head, nil); return nil })
+			repM.Evaluations++
+			repM.count("api:deep-shared")
+			if e != nil || err != nil {
+				for _, p := range []string{"C01", "C18", "C08"} {
+					repM.violate(p, "acyclic-rejected", fmt.Sprintf("Marshal of an acyclic value failed: %v %v", err, e), desc)
+				}
+				continue
+			}
+			var back *deepNode
+			eu := withWatchdog(20*time.Second, &leaked, func() error {
+				return guard(func() error { return sb.Copy(tokensFrom(ts), sb.Unmarshal(&back)) })
+			})
+			repU.Evaluations++
+			ok := eu == nil
+			n := 0
+			var last *deepNode
+			for p := back; ok && p != nil; p = p.Next {
+				n++
+				last = p
+			}
+			if ok && (n != depth+1 || last == nil) {
+				ok = false
+			}
+			if ok {
+				tail.Next, last.Next = nil, nil
+				if !equivValues(reflect.ValueOf(*tail), reflect.ValueOf(*last)) {
+					ok = false
+				}
+			}
+			if !ok {
+				repU.violate("C01", "roundtrip-error", fmt.Sprintf("a deep acyclic value does not round-trip: %v (%d nodes back)", eu, n), desc)
+			}
+		}
+	}
+}
+
+// ---- recycled targets: slices cut back to length 0 keep their capacity and whatever lies behind it ----
+func recycle(v reflect.Value) {
+	switch v.Kind() {
+	case reflect.Ptr:
+		if !v.IsNil() {
+			recycle(v.Elem())
+		}
+	case reflect.Struct:
+		for i := 0; i < v.NumField(); i++ {
+			if v.Type().Field(i).PkgPath == "" {
+				recycle(v.Field(i))
+			}
+		}
+	case reflect.Array:
+		for i := 0; i < v.Len(); i++ {
+			recycle(v.Index(i))
+		}
+	case reflect.Slice:
+		if v.CanSet() && !v.IsNil() {
+			v.Set(v.Slice(0, 0))
+		}
+	}
+}
+
+func hasSlice(t reflect.Type, depth int) bool {
+	if depth > 4 {
+		return false
+	}
+	switch t.Kind() {
+	case reflect.Slice:
+		return !t.AssignableTo(bytesTy)
+	case reflect.Ptr, reflect.Array:
+		return hasSlice(t.Elem(), depth+1)
+	case reflect.Struct:
+		for i := 0; i < t.NumField(); i++ {
+			if t.Field(i).PkgPath == "" && hasSlice(t.Field(i).Type, depth+1) {
+				return true
+			}
+		}
+	}
+	return false
+}
+
+type recElem struct {
+	Note string
+	N    int
+	Tags []string
+	P    *int
+}
+type recHolder struct {
+	Elems []recElem
+	Ptrs  []*recElem
+	Nums  []int
+	Name  string
+}
+
+func apiRecycledTargets(repU *Report, wU *CaseWriter, r *rand.Rand, n int) {
+	reg := coqRegistry()
+	fixed := []reflect.Type{reflect.TypeOf([]recElem(nil)), reflect.TypeOf(recHolder{}), reflect.TypeOf([][]recElem(nil)), reflect.TypeOf([2][]recElem{})}
+	for i := 0; i < n; i++ {
+		var t reflect.Type
+		if i%3 != 2 {
+			t = fixed[r.Intn(len(fixed))]
+		} else {
+			t = randType(r, 3)
+			if !hasSlice(t, 0) || usesEmbeddedOrRecursive(t) {
+				continue
+			}
+		}
+		v1 := randGoValue(r, t, 3)
+		v2 := randGoValue(r, t, 2)
+		if hasBadMapKey(v1) || hasBadMapKey(v2) || hasTiedKeys(v1) || hasTiedKeys(v2) || hasCompositeIfaceKey(v1) || hasCompositeIfaceKey(v2) || hasPtrToNilPtr(v1) {
+			continue
+		}
+		ts1, e1 := marshalTokens(v1.Interface(), nil)
+		skip := mkCtx(true, false)
+		ts2, e2 := marshalTokens(v2.Interface(), &skip)
+		if e1 != nil || e2 != nil || len(ts2) > 300 {
+			continue
+		}
+		target := reflect.New(t)
+		if e := guard(func() error { return copyBudget(tokensFrom(ts1), sb.Unmarshal(target.Interface())) }); e != nil {
+			continue
+		}
+		recycle(target.Elem())
+		curS := coqGval(target.Elem())
+		tyS := coqTy(t)
+		if len(curS)+len(tyS) > 14000 {
+			continue
+		}
+		eU := guard(func() error { return copyBudget(tokensFrom(ts2), sb.Unmarshal(target.Interface())) })
+		repU.Evaluations++
+		repU.count("api:recycled-target")
+		desc := fmt.Sprintf("recycled target (slices cut to length 0 after a first message): type=%v second stream=[%s]", t, truncate(descTokens(ts2), 300))
+		if classOf(eU) == "EPanic" {
+			repU.violate("C05", "unmarshal-panic", fmt.Sprintf("%v", eU), desc)
+			continue
+		}
+		wU.add(fmt.Sprintf("UnmarshalCase %s %s %s %s %s %s %s", coqOpts(false, false, false), reg, tyS, curS, coqTokens(ts2), floatTable(ts2), uobs(target.Elem(), eU)), desc, true)
+		// Go-side: the elements appended to a recycled slice are the elements a fresh target gets
+		if t.Kind() == reflect.Slice && eU == nil {
+			fresh := reflect.New(t)
+			ef := guard(func() error { return copyBudget(tokensFrom(ts2), sb.Unmarshal(fresh.Interface())) })
+			if ef != nil || !equivValues(fresh.Elem(), target.Elem()) {
+				what := fmt.Sprintf("a slice target recycled with s[:0] decodes to %s, a fresh target to %s (%v): fields the stream omits keep data of the previous message", truncate(fmt.Sprintf("%+v", safeFormat(target.Elem())), 300), truncate(fmt.Sprintf("%+v", safeFormat(fresh.Elem())), 300), ef)
+				repU.violate("C16", "recycled-target-differs", what, desc)
+				repU.violate("C01", "recycled-target-differs", what, desc)
+				repU.violate("C05", "recycled-target-differs", what, desc)
 			}
 		}
 	}
